@@ -180,6 +180,9 @@ def key_of(spec, check, symptom=None):
     pa = k["pre_alias"]
     k["pre_returns"] = {"arg": "argument-storage", "view": "argument-storage", "expand": "overlapping-view"}.get(pa, "fresh" if pa != "n/a" else "n/a")
     k["max_iter"] = "1" if spec.get("max_iter") == 1 else ("default" if spec.get("max_iter") is None else ">1")
+    if spec.get("op_entry"):
+        k["op"] = spec["op_entry"]
+        k["debug"] = bool(spec.get("op_debug", True))
     if symptom:
         k["symptom"] = symptom
     if symptom == "zero-tmat":
@@ -222,11 +225,26 @@ def run_systems(ctx, systems, say=True):
         # scaling law on the implementation: one more call with 4 * rhs (and 4 * initial guess) at the largest budget
         if runs and not spec.get("poison") and spec.get("x0") != "nan" and spec.get("mc", "callable") in ("callable", "tensor"):
             sp_l, obs_l = runs[-1]
-            obs_c = S.run_impl(sp_l, T, rhs_scale=4.0)
+            cf = P.scaling_factor(spec)
+            obs_c = S.run_impl(sp_l, T, rhs_scale=cf)
             cnt["impl_calls"] += 1
-            f2, n2 = P.check_scaling(sp_l, T, obs_l, obs_c, 4.0)
+            f2, n2 = P.check_scaling(sp_l, T, obs_l, obs_c, cf)
             fs += f2
             cnt["pred_evals"] += n2
+        # operator-level entry points (LinearOperator.solve / ._solve / .inv_quad on the CG path), settings.debug on and off
+        if runs and spec.get("op"):
+            sp_l, obs_l = runs[-1]
+            # solve / inv_quad use the operator's own (here: no) preconditioner, so they are the direct call only for the
+            # cells without one; _solve takes the preconditioner closure as an argument
+            entries = ["_solve"] + (["inv_quad", "solve"] if spec.get("pre", "none") == "none" else [])
+            for entry in entries:
+                for dbg in (True, False):
+                    obs_o = S.run_op(sp_l, T, entry, dbg)
+                    cnt["impl_calls"] += 1
+                    cnt["op_calls"] = cnt.get("op_calls", 0) + 1
+                    f3, n3 = P.check_op(sp_l, T, obs_l, obs_o, entry, dbg)
+                    fs += f3
+                    cnt["pred_evals"] += n3
         for f in fs:
             fails.append((spec, T, f))
         cases.append((si, spec, T, runs))
@@ -420,6 +438,14 @@ def replay(rp):
     T = S.build(spec)
     obs = S.run_impl(spec, T)
     print("spec:", json.dumps(spec))
+    if spec.get("op_entry"):
+        obs_o = S.run_op(spec, T, spec["op_entry"], spec.get("op_debug", True))
+        print("operator-level %s (debug %s): raised %s, NumericalWarning %s; direct linear_cg: raised %s, NumericalWarning %s" % (
+            spec["op_entry"], spec.get("op_debug", True), obs_o["err"], obs_o["warn"], obs["err"], obs["warn"]))
+        fs, _ = P.check_op(spec, T, obs, obs_o, spec["op_entry"], spec.get("op_debug", True))
+        for f in fs:
+            print("property failure:", f["check"], "-", f["what"])
+        return 1 if fs else 0
     print("raised:", obs["err"], " warn:", obs["warn"], obs["wk"], obs["wmean"])
     if obs["res"] is not None:
         print("result:", obs["res"].flatten()[:8].tolist())
